@@ -2,6 +2,8 @@ import DaskModel.DriverLib
 import DaskModel.Model.TextBlocks
 import DaskModel.Model.BagReduce
 import DaskModel.Model.BagSample
+import DaskModel.Model.BagOps
+import DaskModel.Model.BagShuffle
 open Dask
 
 namespace BagDriver
@@ -197,6 +199,194 @@ def tableC49 : List (String × Handler) := [
 
 end BagDriver
 
-def table : List (String × Handler) := BagDriver.tableC50 ++ BagDriver.tableC49
+namespace BagDriver
+open Dask.BagOps Dask.BagShuffle
+
+/-! ### C48 -/
+
+def ofIntss (xs : List (List Int)) : SExp := .list (xs.map SExp.ofInts)
+
+/-- the binary operators the harness uses, by name (same table on the Python side) -/
+def binopOf (name : String) : Option (Int → Int → Int) :=
+  match name with
+  | "add" => some (· + ·)
+  | "mul" => some (· * ·)
+  | "sub" => some (· - ·)
+  | "max" => some max
+  | "min" => some min
+  | "right" => some fun _ x => x
+  | "left" => some fun a _ => a
+  | "lin" => some fun a x => 2 * a + x
+  | _ => none
+
+def toOptInt' (e : SExp) : Option (Option Int) := e.toOptInt?
+
+def okInts (r : Option (List Int)) : SExp :=
+  match r with | some xs => .list [.sym "ok", SExp.ofInts xs] | none => raised
+
+def hAccumulate : Handler := handler fun args =>
+  match args with
+  | [.sym op, init, parts] => do
+    pure (ofIntss (accumulateB (← binopOf op) (← toOptInt' init) (← parts.toIntss?)))
+  | _ => none
+
+def hTake : Handler := handler fun args =>
+  match args with
+  | [k, n, parts] => do pure (okInts (takeB (← k.toNat?) (← toOptNat? n) (← parts.toIntss?)))
+  | _ => none
+
+def hBoundaries : Handler := handler fun args =>
+  match args with
+  | [n, m] => do
+    let n ← n.toNat?
+    let m ← m.toNat?
+    if m = 0 then none else pure (SExp.ofNats (fixBoundaries n (boundariesFewer n m)))
+  | _ => none
+
+def hNsplits : Handler := handler fun args =>
+  match args with
+  | [n, m] => do pure (SExp.ofNats (nsplitsMore (← n.toNat?) (← m.toNat?)))
+  | _ => none
+
+/-- `(repartition m ((cuts of old partition 0…)…) ((part…)…))` -/
+def hRepartition : Handler := handler fun args =>
+  match args with
+  | [m, cuts, parts] => do
+    let cuts ← cuts.toNatss?
+    let m ← m.toNat?
+    if m = 0 then none
+    else pure (ofIntss (repartitionB (fun i => cuts.getD i []) m (← parts.toIntss?)))
+  | _ => none
+
+def optOut (r : Option SExp) : SExp := match r with | some e => e | none => .list [.sym "hang"]
+
+def hFold : Handler := handler fun args =>
+  match args with
+  | [.sym op, .sym cop, init, se, parts] => do
+    pure (optOut ((foldB (← binopOf op) (← binopOf cop) (← init.toInt?) (← se.toNat?) (← parts.toIntss?)).map SExp.int))
+  | _ => none
+
+def optIntOut (r : Option (Option Int)) : SExp :=
+  match r with
+  | none => .list [.sym "hang"]
+  | some none => raised
+  | some (some v) => .list [.sym "ok", .int v]
+
+def hFoldNoInit : Handler := handler fun args =>
+  match args with
+  | [.sym op, .sym cop, se, parts] => do
+    pure (optIntOut (foldNoInitB (← binopOf op) (← binopOf cop) (← se.toNat?) (← parts.toIntss?)))
+  | _ => none
+
+def hSum : Handler := handler fun args =>
+  match args with
+  | [se, parts] => do pure (optOut ((sumB (← se.toNat?) (← parts.toIntss?)).map SExp.int))
+  | _ => none
+
+def hCount : Handler := handler fun args =>
+  match args with
+  | [se, parts] => do pure (optOut ((countB (← se.toNat?) (← parts.toIntss?)).map SExp.ofNat))
+  | _ => none
+
+def hMax : Handler := handler fun args =>
+  match args with
+  | [se, parts] => do pure (optIntOut (maxB (← se.toNat?) (← parts.toIntss?)))
+  | _ => none
+
+def hTopk : Handler := handler fun args =>
+  match args with
+  | [k, se, parts] => do pure (optOut ((topkB (← k.toNat?) (← se.toNat?) (← parts.toIntss?)).map SExp.ofInts))
+  | _ => none
+
+def ofPairs (xs : List (Nat × Nat)) : SExp := .list (xs.map fun p => .list [SExp.ofNat p.1, SExp.ofNat p.2])
+def ofIntPairs (xs : List (Nat × Int)) : SExp := .list (xs.map fun p => .list [SExp.ofNat p.1, .int p.2])
+
+def hFreq : Handler := handler fun args =>
+  match args with
+  | [se, parts] => do pure (optOut ((frequenciesB (← se.toNat?) (← parts.toNatss?)).map ofPairs))
+  | _ => none
+
+def hDistinct : Handler := handler fun args =>
+  match args with
+  | [parts] => do pure (optOut ((distinctB (← parts.toNatss?)).map SExp.ofNats))
+  | _ => none
+
+/-- `(foldby keymod op init cop cinit se parts)`: key x = x mod keymod -/
+def hFoldby : Handler := handler fun args =>
+  match args with
+  | [km, .sym op, init, .sym cop, cinit, se, parts] => do
+    let km ← km.toNat?
+    pure (optOut ((foldbyB (fun (x : Int) => (x % (km : Int)).toNat) (← binopOf op) (← init.toInt?) (← binopOf cop)
+      (← cinit.toInt?) (← se.toNat?) (← parts.toIntss?)).map ofIntPairs))
+  | _ => none
+
+def toPairs? (e : SExp) : Option (List (Nat × Int)) := do
+  (← e.toList?).mapM fun x => match x with
+    | .list [h, v] => do pure (← h.toNat?, ← v.toInt?)
+    | _ => none
+
+/-- `(shuffle k stages (((h x)…)…))` ↦ output partitions of `(h x)` pairs -/
+def hShuffle : Handler := handler fun args =>
+  match args with
+  | [k, st, parts] => do
+    let parts ← (← parts.toList?).mapM toPairs?
+    pure (.list ((shuffle (← k.toNat?) (← st.toNat?) parts).map ofIntPairs))
+  | _ => none
+
+def ofGroups (gs : List (Nat × List Int)) : SExp := .list (gs.map fun g => .list [SExp.ofNat g.1, SExp.ofInts g.2])
+
+/-- `(groupbytasks k stages keymod (hash of key 0, 1, …) parts)` -/
+def hGroupbyTasks : Handler := handler fun args =>
+  match args with
+  | [k, st, km, hs, parts] => do
+    let km ← km.toNat?
+    let hs ← hs.toNats?
+    pure (.list ((groupbyTasks (fun key => hs.getD key 0) (fun (x : Int) => (x % (km : Int)).toNat) (← k.toNat?) (← st.toNat?)
+      (← parts.toIntss?)).map ofGroups))
+  | _ => none
+
+def hGroupbyDisk : Handler := handler fun args =>
+  match args with
+  | [nout, km, hs, parts] => do
+    let km ← km.toNat?
+    let hs ← hs.toNats?
+    pure (.list ((groupbyDisk (fun key => hs.getD key 0) (fun (x : Int) => (x % (km : Int)).toNat) (← nout.toNat?)
+      (← parts.toIntss?)).map ofGroups))
+  | _ => none
+
+def hDigit : Handler := handler fun args =>
+  match args with
+  | [n, j, k] => do pure (SExp.ofNat (digit (← n.toNat?) (← j.toNat?) (← k.toNat?)))
+  | _ => none
+
+def hSetDigit : Handler := handler fun args =>
+  match args with
+  | [t, s, v, k] => do pure (SExp.ofNat (setDigit (← t.toNat?) (← s.toNat?) (← v.toNat?) (← k.toNat?)))
+  | _ => none
+
+def hProduct : Handler := handler fun args =>
+  match args with
+  | [a, b] => do
+    pure (.list ((productB (← a.toIntss?) (← b.toIntss?)).map fun p => .list (p.map fun xy => .list [.int xy.1, .int xy.2])))
+  | _ => none
+
+def hZip : Handler := handler fun args =>
+  match args with
+  | [a, b] => do
+    match zipB (← a.toIntss?) (← b.toIntss?) with
+    | some z => pure (.list [.sym "ok", .list (z.map fun p => .list (p.map fun xy => .list [.int xy.1, .int xy.2]))])
+    | none => pure raised
+  | _ => none
+
+def tableC48 : List (String × Handler) := [
+  ("accumulate", hAccumulate), ("take", hTake), ("boundaries", hBoundaries), ("nsplits", hNsplits),
+  ("repartition", hRepartition), ("fold", hFold), ("foldnoinit", hFoldNoInit), ("sum", hSum), ("count", hCount),
+  ("max", hMax), ("topk", hTopk), ("freq", hFreq), ("distinct", hDistinct), ("foldby", hFoldby),
+  ("shuffle", hShuffle), ("groupbytasks", hGroupbyTasks), ("groupbydisk", hGroupbyDisk), ("digit", hDigit),
+  ("setdigit", hSetDigit), ("product", hProduct), ("zip", hZip)]
+
+end BagDriver
+
+def table : List (String × Handler) := BagDriver.tableC50 ++ BagDriver.tableC49 ++ BagDriver.tableC48
 
 def main : IO Unit := runDriver table
